@@ -530,8 +530,9 @@ func (src Segment) Rewrite(dropOffsets map[int64]struct{}, params index.Params, 
 	return src.RewriteUpTo(-1, dropOffsets, params, mversion, iversion)
 }
 
-// RewriteUpTo is like Rewrite, but when limit is not negative it only reads the first limit bytes of the log.
-// Use it for a log that is being appended to: what is after limit might be only partly written.
+// RewriteUpTo is like Rewrite, but for a log that is being appended to: when limit is not negative,
+// what is after the first limit bytes of the log might be only partly written. A message
+// there that cannot be read (yet) is the end of the log, not a corruption.
 func (src Segment) RewriteUpTo(limit int64, dropOffsets map[int64]struct{}, params index.Params, mversion message.Version, iversion index.Version) (*RewriteSegment, error) {
 	dst, err := src.forRewrite()
 	if err != nil {
@@ -556,13 +557,13 @@ func (src Segment) RewriteUpTo(limit int64, dropOffsets map[int64]struct{}, para
 	var indexTime int64
 	var dstIndex []index.Item
 	for {
-		if limit >= 0 && srcPosition >= limit {
-			break
-		}
-
 		msg, nextSrcPosition, err := srcLog.Read(srcPosition)
 		if err != nil {
 			if errors.Is(err, io.EOF) {
+				break
+			}
+			if limit >= 0 && srcPosition >= limit && errors.Is(err, message.ErrCorrupted) {
+				// a message that is being appended right now
 				break
 			}
 			return nil, err
